@@ -125,21 +125,27 @@ namespace rkcommon {
     inline IntrusivePtr<T> &IntrusivePtr<T>::operator=(
         const IntrusivePtr &input)
     {
-      if (input.ptr)
-        input.ptr->refInc();
+      // NOTE: 'input' may be a member of the object released below (e.g.
+      //       cur = cur->next when walking a list): do not touch it afterwards
+      T *const newPtr = input.ptr;
+      if (newPtr)
+        newPtr->refInc();
       if (ptr)
         ptr->refDec();
-      ptr = input.ptr;
+      ptr = newPtr;
       return *this;
     }
 
     template <typename T>
     inline IntrusivePtr<T> &IntrusivePtr<T>::operator=(IntrusivePtr &&input)
     {
-      if (ptr)
-        ptr->refDec();
-      ptr = input.ptr;
-      input.ptr = nullptr;
+      // NOTE: take over the pointer before releasing the old pointee, which may
+      //       own 'input' (e.g. cur = std::move(cur->next))
+      T *const oldPtr = ptr;
+      ptr             = input.ptr;
+      input.ptr       = nullptr;
+      if (oldPtr)
+        oldPtr->refDec();
       return *this;
     }
 
